@@ -322,4 +322,619 @@ pub proof fn lemma_full_escape_no_quote(s: Seq<u8>)
     r
 }
 //@end
+
+// ---------------------------------------------------------------------------------------------
+// unescape_with / unescape (C10): every reference is replaced by exactly its character(s), anything else is
+// an error; then the inverse law.
+// ---------------------------------------------------------------------------------------------
+pub mod shim_u {
+    use vstd::prelude::*;
+    use vstd::string::*;
+    use crate::memchr::Memchr3;
+    /// contract of `iter.by_ref().find(f)` on the position iterator (N2): the next yielded position that satisfies `f`
+    pub fn find_pos<'h, F: Fn(&usize) -> bool>(it: &mut Memchr3<'h>, f: F) -> (r: Option<usize>)
+        requires old(it).wf(), forall|p: usize| p < old(it).hay@.len() ==> f.requires((&p,)),
+        ensures
+            final(it).wf(), final(it).hay == old(it).hay, final(it).n1 == old(it).n1, final(it).n2 == old(it).n2, final(it).n3 == old(it).n3,
+            match r {
+                Some(i) => old(it).pos <= i < old(it).hay@.len() && old(it).needle(old(it).hay@[i as int]) && f.ensures((&i,), true)
+                    && final(it).pos == i + 1
+                    && forall|j: int| old(it).pos <= j < i && old(it).needle(#[trigger] old(it).hay@[j]) ==> f.ensures((&(j as usize),), false),
+                None => final(it).pos == old(it).hay@.len()
+                    && forall|j: int| old(it).pos <= j < old(it).hay@.len() && old(it).needle(#[trigger] old(it).hay@[j]) ==> f.ensures((&(j as usize),), false),
+            }
+    {
+        let ghost p0 = it.pos as int;
+        loop
+            invariant
+                it.wf(), it.hay == old(it).hay, it.n1 == old(it).n1, it.n2 == old(it).n2, it.n3 == old(it).n3, p0 == old(it).pos, p0 <= it.pos,
+                forall|p: usize| p < old(it).hay@.len() ==> f.requires((&p,)),
+                forall|j: int| p0 <= j < it.pos && it.needle(#[trigger] it.hay@[j]) ==> f.ensures((&(j as usize),), false),
+            decreases it.hay@.len() - it.pos
+        {
+            match it.next() {
+                None => { return None; }
+                Some(i) => { if f(&i) { return Some(i); } }
+            }
+        }
+    }
+    /// assumed: `&raw[a..b]` -- the offsets are those of ASCII delimiters (or behind one), hence character boundaries;
+    /// the slice has the bytes between them
+    #[verifier::external_body]
+    pub fn str_slice<'a>(raw: &'a str, a: usize, b: usize) -> (r: &'a str)
+        requires a <= b <= raw.spec_bytes().len()
+        ensures r.spec_bytes() == raw.spec_bytes().subrange(a as int, b as int)
+    { &raw[a..b] }
+    /// assumed: `raw.get(a..)` with `a` behind an ASCII delimiter (or 0)
+    #[verifier::external_body]
+    pub fn str_from<'a>(raw: &'a str, a: usize) -> (r: Option<&'a str>)
+        requires a <= raw.spec_bytes().len()
+        ensures r matches Some(t) && t.spec_bytes() == raw.spec_bytes().subrange(a as int, raw.spec_bytes().len() as int)
+    { raw.get(a..) }
+    /// assumed: `s.push_str(c.encode_utf8(&mut [0u8; 4]))` appends the character
+    #[verifier::external_body]
+    pub fn push_char(s: &mut String, c: char)
+        ensures final(s)@ == old(s)@.push(c)
+    { s.push_str(c.encode_utf8(&mut [0u8; 4])); }
+    /// the text of an error message (not interpreted)
+    #[verifier::external_body]
+    pub fn to_string(s: &str) -> String { s.to_string() }
+}
+pub assume_specification[ String::with_capacity ](n: usize) -> (s: String)
+    ensures s@.len() == 0;
+
+use escape_::{parse_number, ParseCharRefError, charref_digits, digits_value, is_scalar};
+use crate::memchr::memchr2_iter;
+use core::ops::Range;
+
+/// index of the first byte at or after `from` that is '&' (amp) / that is '&' or ';' (delimiter)
+pub open spec fn first_amp(s: Seq<u8>, from: int) -> Option<int> decreases s.len() - from {
+    if from < 0 || from >= s.len() { None } else if s[from] == 0x26 { Some(from) } else { first_amp(s, from + 1) }
+}
+pub open spec fn first_delim(s: Seq<u8>, from: int) -> Option<int> decreases s.len() - from {
+    if from < 0 || from >= s.len() { None } else if s[from] == 0x26 || s[from] == 0x3b { Some(from) } else { first_delim(s, from + 1) }
+}
+pub proof fn lemma_first_amp(s: Seq<u8>, from: int)
+    requires 0 <= from
+    ensures match first_amp(s, from) {
+        Some(i) => from <= i < s.len() && s[i] == 0x26 && forall|j: int| from <= j < i ==> #[trigger] s[j] != 0x26,
+        None => forall|j: int| from <= j < s.len() ==> #[trigger] s[j] != 0x26,
+    }
+    decreases s.len() - from
+{ if from < s.len() && s[from] != 0x26 { lemma_first_amp(s, from + 1); } }
+pub proof fn lemma_first_delim(s: Seq<u8>, from: int)
+    requires 0 <= from
+    ensures match first_delim(s, from) {
+        Some(i) => from <= i < s.len() && (s[i] == 0x26 || s[i] == 0x3b) && forall|j: int| from <= j < i ==> (#[trigger] s[j] != 0x26 && s[j] != 0x3b),
+        None => forall|j: int| from <= j < s.len() ==> (#[trigger] s[j] != 0x26 && s[j] != 0x3b),
+    }
+    decreases s.len() - from
+{ if from < s.len() && !(s[from] == 0x26 || s[from] == 0x3b) { lemma_first_delim(s, from + 1); } }
+/// the scalar value of the body of a character reference ("#" already removed): XML 1.0 4.1 -- decimal or 'x' + hex
+/// digits of a non-zero Unicode scalar value; anything else is no character reference
+pub open spec fn charref_value(body: Seq<u8>) -> Option<nat> {
+    let (digits, radix) = charref_digits(body);
+    match digits_value(digits, radix) { Some(v) => if v != 0 && is_scalar(v) { Some(v) } else { None }, None => None }
+}
+/// the bytes written so far
+pub open spec fn acc_bytes(u: Option<String>) -> Seq<u8> { match u { Some(x) => encode_utf8(x@), None => Seq::<u8>::empty() } }
+/// `v` (UTF-8 bytes) is what the reference body `pat` (the bytes between '&' and ';') stands for: the character of
+/// a character reference, or what the resolver answers for a named one
+pub open spec fn ent_ok<'e, F: Fn(&str) -> Option<&'e str>>(pat: Seq<u8>, f: F, v: Seq<u8>) -> bool {
+    if pat.len() > 0 && pat[0] == 0x23 {
+        exists|c: char| charref_value(pat.subrange(1, pat.len() as int)) == Some(c as u32 as nat) && v == #[trigger] encode_utf8(seq![c])
+    } else {
+        exists|p: &str, val: &'e str| p.spec_bytes() == pat && #[trigger] f.ensures((p,), Some(val)) && val.spec_bytes() == v
+    }
+}
+/// the reference body is rejected: not a character reference although it starts with '#', or unknown to the resolver
+pub open spec fn ent_err<'e, F: Fn(&str) -> Option<&'e str>>(pat: Seq<u8>, f: F) -> bool {
+    if pat.len() > 0 && pat[0] == 0x23 { charref_value(pat.subrange(1, pat.len() as int)) is None }
+    else { exists|p: &str| p.spec_bytes() == pat && #[trigger] f.ensures((p,), None) }
+}
+/// `out` is the unescaped form of s[from..]: text between references is copied, every `&body;` is replaced by what
+/// the body stands for; an '&' must be closed by a ';' before the next '&' (stray ';' are ordinary text)
+pub open spec fn unesc_ok<'e, F: Fn(&str) -> Option<&'e str>>(s: Seq<u8>, from: int, f: F, out: Seq<u8>) -> bool decreases s.len() - from {
+    if from < 0 || from > s.len() { false } else {
+        match first_amp(s, from) {
+            None => out == s.subrange(from, s.len() as int),
+            Some(a) => match first_delim(s, a + 1) {
+                // out == s[from..a] ++ v ++ rest, v the value of the reference, rest the unescaped remainder
+                Some(e) => s[e] == 0x3b && from < e + 1 <= s.len() && exists|v: Seq<u8>| #[trigger] ent_ok(s.subrange(a + 1, e), f, v)
+                    && (a - from) + v.len() <= out.len() && out.subrange(0, (a - from) + v.len()) == s.subrange(from, a) + v
+                    && unesc_ok(s, e + 1, f, out.subrange((a - from) + v.len(), out.len() as int)),
+                None => false,
+            },
+        }
+    }
+}
+/// unescaping s[from..] meets an error: an '&' that is not closed, or a reference body that is rejected
+pub open spec fn unesc_err<'e, F: Fn(&str) -> Option<&'e str>>(s: Seq<u8>, from: int, f: F) -> bool decreases s.len() - from {
+    if from < 0 || from > s.len() { false } else {
+        match first_amp(s, from) {
+            None => false,
+            Some(a) => match first_delim(s, a + 1) {
+                Some(e) => s[e] != 0x3b || ent_err(s.subrange(a + 1, e), f)
+                    || (from < e + 1 <= s.len() && (exists|v: Seq<u8>| #[trigger] ent_ok(s.subrange(a + 1, e), f, v)) && unesc_err(s, e + 1, f)),
+                None => true,
+            },
+        }
+    }
+}
+
+//@extract escape::EscapeError | src/escape.rs :: enum EscapeError | serves=C10
+ pub enum EscapeError {
+    /// Referenced entity in unknown to the parser.
+    UnrecognizedEntity(Range<usize>, String),
+    /// Cannot find `;` after `&`
+    UnterminatedEntity(Range<usize>),
+    /// Attempt to parse character reference (`&#<dec-number>;` or `&#x<hex-number>;`)
+    /// was unsuccessful, not all characters are decimal or hexadecimal numbers.
+    InvalidCharRef(ParseCharRefError),
+}
+//@end
+//@extract escape::unescape_with | src/escape.rs :: fn unescape_with | serves=C09,C10
+//@rewrite mut resolve_entity: F, ==> resolve_entity: F,
+//@rewrite F: FnMut(&str) -> Option<&'entity str>, ==> F: Fn(&str) -> Option<&'entity str>,
+//@rewrite-opt iter.by_ref().find(|p| ==> shim_u::find_pos(&mut iter, |p: &usize|
+//@rewrite unescaped.push_str(&raw[last_end..start]) ==> unescaped.push_str(shim_u::str_slice(raw, last_end, start))
+//@rewrite &raw[start + 1..end] ==> shim_u::str_slice(raw, start + 1, end)
+//@rewrite pat.strip_prefix('#') ==> escape_::strshim2::strip_prefix_char(pat, '#')
+//@rewrite .map_err(EscapeError::InvalidCharRef)? ==> .map_err(|e: ParseCharRefError| EscapeError::InvalidCharRef(e))?
+//@rewrite unescaped.push_str(codepoint.encode_utf8(&mut [0u8; 4])) ==> shim_u::push_char(unescaped, codepoint)
+//@rewrite pat.to_string() ==> shim_u::to_string(pat)
+//@rewrite raw.get(last_end..) ==> shim_u::str_from(raw, last_end)
+ pub fn unescape_with<'input, 'entity, F>(
+    raw: &'input str,
+    resolve_entity: F,
+) -> (r: Result<Cow<'input, str>, EscapeError>)
+where
+    // the lifetime of the output comes from a capture or is `'static`
+    F: Fn(&str) -> Option<&'entity str>,
+    requires forall|p: &str| resolve_entity.requires((p,)),
+    ensures match r {
+        // C10: every reference gives exactly what it stands for, the rest is copied ...
+        Ok(c) => unesc_ok(raw.spec_bytes(), 0, resolve_entity, cow_str_bytes(c))
+            // ... and a string without '&' is returned unchanged and borrowed
+            && (first_amp(raw.spec_bytes(), 0) is None ==> c == Cow::<'input, str>::Borrowed(raw)),
+        // ... any other reference (zero, surrogate, out of range, signed, empty, unknown name, missing ';') is an error
+        Err(_) => unesc_err(raw.spec_bytes(), 0, resolve_entity),
+    }
+{
+    let bytes = raw.as_bytes();
+    let ghost s = bytes@;
+    let mut unescaped: Option<String> = None;
+    let mut last_end = 0;
+    let mut iter = memchr2_iter(b'&', b';', bytes);
+    proof { lemma_first_amp(s, 0); }
+    loop
+        invariant_except_break
+            iter.pos == last_end,
+        invariant
+            bytes@ == s, s == raw.spec_bytes(), iter.wf(), iter.hay == bytes, iter.n1 == 0x26, iter.n2 == 0x3b, iter.n3 == 0x3b, last_end <= s.len(),
+            forall|p: &str| resolve_entity.requires((p,)),
+            unescaped is None ==> last_end == 0,
+            // continuation form: whatever the rest unescapes to, the whole unescapes to what has been written plus that
+            forall|rest: Seq<u8>| #[trigger] unesc_ok(s, last_end as int, resolve_entity, rest) ==> unesc_ok(s, 0, resolve_entity, acc_bytes(unescaped) + rest),
+            unesc_err(s, last_end as int, resolve_entity) ==> unesc_err(s, 0, resolve_entity),
+            unescaped is None ==> first_amp(s, 0) == first_amp(s, last_end as int),
+            unescaped is Some ==> first_amp(s, 0) is Some,
+        ensures
+            unescaped is Some ==> first_amp(s, 0) is Some,
+            last_end <= s.len(), first_amp(s, last_end as int) is None,
+            unescaped is None ==> last_end == 0,
+            forall|rest: Seq<u8>| #[trigger] unesc_ok(s, last_end as int, resolve_entity, rest) ==> unesc_ok(s, 0, resolve_entity, acc_bytes(unescaped) + rest),
+        decreases s.len() - last_end
+    { proof { lemma_first_amp(s, last_end as int); }
+      match shim_u::find_pos(&mut iter, |p: &usize| -> (x: bool) requires *p < bytes@.len() ensures x == (bytes@[*p as int] == 0x26) { bytes[*p] == b'&' }) { Some(start) => {
+        proof {
+            assert(first_amp(s, last_end as int) == Some(start as int));
+            lemma_first_delim(s, start + 1);
+        }
+        let ghost l0 = last_end as int;
+        let ghost acc0 = acc_bytes(unescaped);
+        match iter.next() {
+            Some(end) if bytes[end] == b';' => {
+                proof { assert(first_delim(s, start + 1) == Some(end as int)); }
+                // append valid data
+                if unescaped.is_none() {
+                    unescaped = Some(String::with_capacity(raw.len()));
+                }
+                let unescaped = unescaped.as_mut().expect("initialized");
+                let ghost u0 = unescaped@;
+                proof { assert(encode_utf8(u0) =~= acc0) by { if acc0.len() == 0 && u0.len() == 0 { assert(u0 =~= Seq::<char>::empty()); reveal_with_fuel(encode_utf8, 1); } } }
+                unescaped.push_str(shim_u::str_slice(raw, last_end, start));
+                let ghost chunk = s.subrange(l0, start as int);
+                proof {
+                    let t1 = choose|t: &str| t.spec_bytes() == chunk && unescaped@ == u0 + t@;
+                    encode_utf8_concat(u0, t1@);
+                    assert(encode_utf8(unescaped@) == acc0 + chunk);
+                }
+
+                // search for character correctness
+                let pat = shim_u::str_slice(raw, start + 1, end);
+                let ghost pb = s.subrange(start + 1, end as int);
+                let ghost u1 = unescaped@;
+                let ghost mut vv: Seq<u8> = Seq::empty();
+                if let Some(entity) = escape_::strshim2::strip_prefix_char(pat, '#') {
+                    proof {
+                        // a '#' body that is no character reference is an error
+                        if charref_value(pb.subrange(1, pb.len() as int)) is None {
+                            assert(ent_err(pb, resolve_entity));
+                            assert(unesc_err(s, l0, resolve_entity));
+                        }
+                    }
+                    let codepoint = parse_number(entity).map_err(|e: ParseCharRefError| -> (x: EscapeError) ensures x == EscapeError::InvalidCharRef(e) { EscapeError::InvalidCharRef(e) })?;
+                    shim_u::push_char(unescaped, codepoint);
+                    proof {
+                        encode_utf8_concat(u1, seq![codepoint]);
+                        assert(unescaped@ =~= u1 + seq![codepoint]);
+                        assert(ent_ok(pb, resolve_entity, encode_utf8(seq![codepoint])));
+                        vv = encode_utf8(seq![codepoint]);
+                    }
+                } else if let Some(value) = resolve_entity(pat) {
+                    unescaped.push_str(value);
+                    proof {
+                        encode_utf8_concat(u1, value@);
+                        assert(ent_ok(pb, resolve_entity, value.spec_bytes()));
+                        vv = value.spec_bytes();
+                    }
+                } else {
+                    proof {
+                        assert(ent_err(pb, resolve_entity));
+                        assert(unesc_err(s, l0, resolve_entity));
+                    }
+                    return Err(EscapeError::UnrecognizedEntity(
+                        start + 1..end,
+                        shim_u::to_string(pat),
+                    ));
+                }
+                proof {
+                    let v = vv;
+                    assert(ent_ok(pb, resolve_entity, v));
+                    assert(encode_utf8(unescaped@) == encode_utf8(u1) + v);
+                    assert(encode_utf8(unescaped@) =~= acc0 + chunk + v);
+                    assert forall|rest: Seq<u8>| #[trigger] unesc_ok(s, end + 1, resolve_entity, rest) implies unesc_ok(s, 0, resolve_entity, acc0 + chunk + v + rest) by {
+                        let out = chunk + v + rest;
+                        assert(out.subrange(0, (chunk.len() + v.len()) as int) =~= chunk + v);
+                        assert(out.subrange((chunk.len() + v.len()) as int, out.len() as int) =~= rest);
+                        assert(unesc_ok(s, l0, resolve_entity, chunk + v + rest));
+                        assert(acc0 + (chunk + v + rest) =~= acc0 + chunk + v + rest);
+                    }
+                    if unesc_err(s, end + 1, resolve_entity) { assert(unesc_err(s, l0, resolve_entity)); }
+                }
+
+                last_end = end + 1;
+            }
+            _ => {
+                proof { assert(unesc_err(s, l0, resolve_entity)); }
+                return Err(EscapeError::UnterminatedEntity(start..raw.len())) },
+        }
+    } _ => { break; } } }
+
+    proof {
+        let tail = s.subrange(last_end as int, s.len() as int);
+        assert(unesc_ok(s, last_end as int, resolve_entity, tail));
+        assert(unesc_ok(s, 0, resolve_entity, acc_bytes(unescaped) + tail));
+        if unescaped is None { assert(acc_bytes(unescaped) + tail =~= s); }
+    }
+    if let Some(mut unescaped) = unescaped {
+        let ghost u0 = unescaped@;
+        if let Some(raw) = shim_u::str_from(raw, last_end) {
+            unescaped.push_str(raw);
+            proof { encode_utf8_concat(u0, raw@); }
+        }
+        Ok(Cow::Owned(unescaped))
+    } else {
+        Ok(Cow::Borrowed(raw))
+    }
+}
+//@end
+
+// ---- C10, first sentence: unescaping is the exact inverse of escaping ----
+pub open spec fn opt_shift(o: Option<int>, n: int) -> Option<int> { match o { Some(k) => Some(k + n), None => None } }
+pub proof fn lemma_first_amp_shift(x: Seq<u8>, y: Seq<u8>, from: int)
+    requires 0 <= from <= y.len()
+    ensures first_amp(x + y, x.len() + from) == opt_shift(first_amp(y, from), x.len() as int)
+    decreases y.len() - from
+{
+    if from < y.len() {
+        assert((x + y)[x.len() + from] == y[from]);
+        if y[from] != 0x26 { lemma_first_amp_shift(x, y, from + 1); }
+    }
+}
+pub proof fn lemma_first_delim_shift(x: Seq<u8>, y: Seq<u8>, from: int)
+    requires 0 <= from <= y.len()
+    ensures first_delim(x + y, x.len() + from) == opt_shift(first_delim(y, from), x.len() as int)
+    decreases y.len() - from
+{
+    if from < y.len() {
+        assert((x + y)[x.len() + from] == y[from]);
+        if !(y[from] == 0x26 || y[from] == 0x3b) { lemma_first_delim_shift(x, y, from + 1); }
+    }
+}
+/// unescaping does not look back: what precedes `from` is irrelevant
+pub proof fn lemma_unescape_shift(x: Seq<u8>, y: Seq<u8>, from: int)
+    requires 0 <= from <= y.len()
+    ensures unescape_xml(x + y, x.len() + from) == unescape_xml(y, from)
+    decreases y.len() - from
+{
+    let n = x.len() as int;
+    let z = x + y;
+    lemma_first_amp_shift(x, y, from);
+    lemma_first_amp(y, from);
+    match first_amp(y, from) {
+        None => { assert(z.subrange(n + from, z.len() as int) =~= y.subrange(from, y.len() as int)); }
+        Some(a) => {
+            lemma_first_delim_shift(x, y, a + 1);
+            lemma_first_delim(y, a + 1);
+            match first_delim(y, a + 1) {
+                None => {}
+                Some(e) => {
+                    assert(z[n + e] == y[e]);
+                    if y[e] == 0x3b {
+                        assert(z.subrange(n + a + 1, n + e) =~= y.subrange(a + 1, e));
+                        assert(z.subrange(n + from, n + a) =~= y.subrange(from, a));
+                        lemma_unescape_shift(x, y, e + 1);
+                    }
+                }
+            }
+        }
+    }
+}
+/// the replacement of an escapable byte is one reference that stands for that byte
+pub proof fn lemma_esc_one_value(b: u8)
+    requires lvl_full(b)
+    ensures ({
+        let r = esc_one(b);
+        &&& r.len() >= 4 && r[0] == 0x26 && r[r.len() - 1] == 0x3b
+        &&& forall|j: int| 1 <= j < r.len() - 1 ==> (#[trigger] r[j] != 0x26 && r[j] != 0x3b)
+        &&& ent_value_xml(r.subrange(1, r.len() - 1)) == Some(seq![b])
+    })
+{
+    let r = esc_one(b);
+    let body = r.subrange(1, r.len() - 1);
+    if b == 0x3c { assert(body =~= seq![0x6cu8, 0x74]); }
+    else if b == 0x3e { assert(body =~= seq![0x67u8, 0x74]); }
+    else if b == 0x26 { assert(body =~= seq![0x61u8, 0x6d, 0x70]); }
+    else if b == 0x27 { assert(body =~= seq![0x61u8, 0x70, 0x6f, 0x73]); }
+    else { assert(body =~= seq![0x71u8, 0x75, 0x6f, 0x74]); }
+}
+/// THEOREM (C10): for every byte string and each of the three levels (any set of the five special characters that
+/// contains '&'), unescaping the escaped form gives the string back
+pub proof fn theorem_unescape_escape(s: Seq<u8>, p: spec_fn(u8) -> bool)
+    requires p(0x26u8), forall|b: u8| p(b) ==> lvl_full(b)
+    ensures unescape_xml(spec_escape(s, p), 0) == Some(s)
+    decreases s.len()
+{
+    if s.len() == 0 {
+        assert(spec_escape(s, p) =~= Seq::<u8>::empty());
+        assert(unescape_xml(Seq::<u8>::empty(), 0) == Some(Seq::<u8>::empty().subrange(0, 0)));
+        assert(Seq::<u8>::empty().subrange(0, 0) =~= s);
+    } else {
+        let b = s[0];
+        let tail = s.subrange(1, s.len() as int);
+        theorem_unescape_escape(tail, p);
+        let t = spec_escape(tail, p);
+        lemma_escape_concat(seq![b], tail, p);
+        assert(seq![b] + tail =~= s);
+        let piece = spec_escape(seq![b], p);
+        assert(piece =~= (if p(b) { esc_one(b) } else { seq![b] })) by {
+            assert(seq![b].drop_last() =~= Seq::<u8>::empty());
+            assert(spec_escape(Seq::<u8>::empty(), p) =~= Seq::<u8>::empty());
+        }
+        let z = piece + t;
+        assert(spec_escape(s, p) == z);
+        lemma_unescape_shift(piece, t, 0);
+        if p(b) {
+            lemma_esc_one_value(b);
+            let e = piece.len() - 1;
+            lemma_first_amp(z, 0);
+            assert(z[0] == 0x26);
+            assert(first_amp(z, 0) == Some(0int));
+            lemma_first_delim(z, 1);
+            assert forall|j: int| 1 <= j < e implies (#[trigger] z[j] != 0x26 && z[j] != 0x3b) by { assert(z[j] == piece[j]); }
+            assert(z[e] == piece[e]);
+            assert(first_delim(z, 1) == Some(e));
+            assert(z.subrange(1, e) =~= piece.subrange(1, piece.len() - 1));
+            assert(z.subrange(0, 0) + seq![b] + tail =~= s);
+        } else {
+            // an ordinary byte is copied: it is not '&'
+            assert(b != 0x26);
+            lemma_unescape_skip(z, 0);
+            assert(seq![b] + tail =~= s);
+        }
+    }
+}
+/// a byte that is not '&' is copied
+pub proof fn lemma_unescape_skip(z: Seq<u8>, from: int)
+    requires 0 <= from < z.len(), z[from] != 0x26
+    ensures unescape_xml(z, from) == (match unescape_xml(z, from + 1) { Some(r) => Some(seq![z[from]] + r), None => None })
+{
+    lemma_first_amp(z, from);
+    lemma_first_amp(z, from + 1);
+    match first_amp(z, from + 1) {
+        None => { assert(z.subrange(from, z.len() as int) =~= seq![z[from]] + z.subrange(from + 1, z.len() as int)); }
+        Some(a) => {
+            match first_delim(z, a + 1) {
+                None => {}
+                Some(e) => {
+                    if z[e] == 0x3b && from + 1 < e + 1 <= z.len() {
+                        match (ent_value_xml(z.subrange(a + 1, e)), unescape_xml(z, e + 1)) {
+                            (Some(v), Some(rest)) => { assert(z.subrange(from, a) + v + rest =~= seq![z[from]] + (z.subrange(from + 1, a) + v + rest)); }
+                            _ => {}
+                        }
+                    }
+                }
+            }
+        }
+    }
+}
+
+/// helper of normalisation N13: equality of byte slices (verified)
+pub fn bytes_eq(a: &[u8], b: &[u8]) -> (r: bool)
+    ensures r == (a@ == b@)
+{
+    if a.len() != b.len() { return false; }
+    let mut i = 0;
+    while i < a.len()
+        invariant i <= a@.len(), a@.len() == b@.len(), forall|j: int| 0 <= j < i ==> a@[j] == b@[j],
+        decreases a@.len() - i
+    {
+        if a[i] != b[i] { return false; }
+        i = i + 1;
+    }
+    proof { assert(a@ =~= b@); }
+    true
+}
+
+/// XML 1.0 4.6: the five predefined entities
+pub open spec fn xml_entity(p: Seq<u8>) -> Option<Seq<u8>> {
+    if p == seq![0x6cu8, 0x74] { Some(seq![0x3cu8]) }                       // lt
+    else if p == seq![0x67u8, 0x74] { Some(seq![0x3eu8]) }                  // gt
+    else if p == seq![0x61u8, 0x6d, 0x70] { Some(seq![0x26u8]) }            // amp
+    else if p == seq![0x61u8, 0x70, 0x6f, 0x73] { Some(seq![0x27u8]) }      // apos
+    else if p == seq![0x71u8, 0x75, 0x6f, 0x74] { Some(seq![0x22u8]) }      // quot
+    else { None }
+}
+/// `f` answers exactly the predefined entities
+pub open spec fn implements_xml<'e, F: Fn(&str) -> Option<&'e str>>(f: F) -> bool {
+    forall|p: &str, o: Option<&'e str>| #[trigger] f.ensures((p,), o) ==> match o {
+        Some(v) => xml_entity(p.spec_bytes()) == Some(v.spec_bytes()),
+        None => xml_entity(p.spec_bytes()) is None,
+    }
+}
+pub open spec fn char_val(c: char) -> nat { c as u32 as nat }
+/// value of a reference body under the predefined entities
+pub open spec fn ent_value_xml(pat: Seq<u8>) -> Option<Seq<u8>> {
+    if pat.len() > 0 && pat[0] == 0x23 {
+        match charref_value(pat.subrange(1, pat.len() as int)) {
+            Some(n) => Some(encode_utf8(seq![choose|c: char| #[trigger] char_val(c) == n])),
+            None => None,
+        }
+    } else { xml_entity(pat) }
+}
+/// THE unescaping function for the predefined entities (C10)
+pub open spec fn unescape_xml(s: Seq<u8>, from: int) -> Option<Seq<u8>> decreases s.len() - from {
+    if from < 0 || from > s.len() { None } else {
+        match first_amp(s, from) {
+            None => Some(s.subrange(from, s.len() as int)),
+            Some(a) => match first_delim(s, a + 1) {
+                Some(e) => if s[e] == 0x3b && from < e + 1 <= s.len() {
+                        match (ent_value_xml(s.subrange(a + 1, e)), unescape_xml(s, e + 1)) {
+                            (Some(v), Some(rest)) => Some(s.subrange(from, a) + v + rest),
+                            _ => None,
+                        }
+                    } else { None },
+                None => None,
+            },
+        }
+    }
+}
+/// a char is determined by its scalar value
+pub proof fn lemma_char_unique(c: char, d: char)
+    requires c as u32 == d as u32
+    ensures c == d
+{}
+/// for a resolver that answers exactly the predefined entities, the relation of unescape_with is this function
+pub proof fn lemma_unesc_functional<'e, F: Fn(&str) -> Option<&'e str>>(s: Seq<u8>, from: int, f: F, out: Seq<u8>)
+    requires implements_xml(f), 0 <= from <= s.len()
+    ensures
+        unesc_ok(s, from, f, out) ==> unescape_xml(s, from) == Some(out),
+        unesc_err(s, from, f) ==> unescape_xml(s, from) is None,
+    decreases s.len() - from
+{
+    lemma_first_amp(s, from);
+    match first_amp(s, from) {
+        None => {}
+        Some(a) => {
+            lemma_first_delim(s, a + 1);
+            match first_delim(s, a + 1) {
+                None => {}
+                Some(e) => {
+                    if s[e] == 0x3b {
+                        let pat = s.subrange(a + 1, e);
+                        // what ent_ok / ent_err say under this resolver
+                        assert forall|v: Seq<u8>| #[trigger] ent_ok(pat, f, v) implies ent_value_xml(pat) == Some(v) by {
+                            if pat.len() > 0 && pat[0] == 0x23 {
+                                let c = choose|c: char| charref_value(pat.subrange(1, pat.len() as int)) == Some(c as u32 as nat) && v == #[trigger] encode_utf8(seq![c]);
+                                assert(char_val(c) == c as u32 as nat);
+                                let d = choose|d: char| #[trigger] char_val(d) == c as u32 as nat;
+                                lemma_char_unique(c, d);
+                            }
+                        }
+                        if ent_err(pat, f) { assert(ent_value_xml(pat) is None); }
+                        if unesc_ok(s, from, f, out) {
+                            let v = choose|v: Seq<u8>| #[trigger] ent_ok(pat, f, v)
+                                && (a - from) + v.len() <= out.len() && out.subrange(0, (a - from) + v.len()) == s.subrange(from, a) + v
+                                && unesc_ok(s, e + 1, f, out.subrange((a - from) + v.len(), out.len() as int));
+                            let rest = out.subrange((a - from) + v.len(), out.len() as int);
+                            lemma_unesc_functional(s, e + 1, f, rest);
+                            assert(out =~= s.subrange(from, a) + v + rest);
+                        }
+                        if unesc_err(s, from, f) && !ent_err(pat, f) {
+                            lemma_unesc_functional(s, e + 1, f, Seq::<u8>::empty());
+                        }
+                    }
+                }
+            }
+        }
+    }
+}
+
+//@extract escape::resolve_xml_entity | src/escape.rs :: fn resolve_xml_entity | serves=C10 n13=1
+ pub fn resolve_xml_entity(entity: &str) -> (r: Option<&'static str>)
+    // XML 1.0 4.6: lt gt amp apos quot and nothing else
+    ensures match r {
+        Some(v) => xml_entity(entity.spec_bytes()) == Some(v.spec_bytes()),
+        None => xml_entity(entity.spec_bytes()) is None,
+    }
+ {
+    proof {
+        reveal_strlit("<"); reveal_strlit(">"); reveal_strlit("&"); reveal_strlit("'"); reveal_strlit("\"");
+        is_ascii_chars_encode_utf8("<"@); is_ascii_chars_encode_utf8(">"@); is_ascii_chars_encode_utf8("&"@);
+        is_ascii_chars_encode_utf8("'"@); is_ascii_chars_encode_utf8("\""@);
+        assert("<".spec_bytes() =~= seq![0x3cu8]); assert(">".spec_bytes() =~= seq![0x3eu8]); assert("&".spec_bytes() =~= seq![0x26u8]);
+        assert("'".spec_bytes() =~= seq![0x27u8]); assert("\"".spec_bytes() =~= seq![0x22u8]);
+    }
+    // match over strings are not allowed in const functions
+    let s = { let __m13_1 = entity.as_bytes() ; if bytes_eq(__m13_1, &[b'l', b't']) { "<" } else if bytes_eq(__m13_1, &[b'g', b't']) { ">" } else if bytes_eq(__m13_1, &[b'a', b'm', b'p']) { "&" } else if bytes_eq(__m13_1, &[b'a', b'p', b'o', b's']) { "'" } else if bytes_eq(__m13_1, &[b'q', b'u', b'o', b't']) { "\"" } else { return None } };
+    Some(s)
+}
+//@end
+//@extract escape::resolve_predefined_entity | src/escape.rs :: fn resolve_predefined_entity | serves=C10
+ pub fn resolve_predefined_entity(entity: &str) -> (r: Option<&'static str>)
+    ensures match r {
+        Some(v) => xml_entity(entity.spec_bytes()) == Some(v.spec_bytes()),
+        None => xml_entity(entity.spec_bytes()) is None,
+    }
+ {
+    {
+        resolve_xml_entity(entity)
+    }
+}
+//@end
+//@extract escape::unescape | src/escape.rs :: fn unescape | serves=C09,C10
+//@rewrite unescape_with(raw, resolve_predefined_entity) ==> { let f = |e: &str| resolve_predefined_entity(e); let r = unescape_with(raw, f); r }
+ pub fn unescape(raw: &str) -> (r: Result<Cow<str>, EscapeError>)
+    // C10: the result is the function unescape_xml of the input: every character reference of a valid non-zero
+    // scalar value and every predefined entity gives exactly its character; anything else is an error
+    ensures match r {
+        Ok(c) => unescape_xml(raw.spec_bytes(), 0) == Some(cow_str_bytes(c))
+            && (first_amp(raw.spec_bytes(), 0) is None ==> c == Cow::<str>::Borrowed(raw)),
+        Err(_) => unescape_xml(raw.spec_bytes(), 0) is None,
+    }
+ {
+    { let f = |e: &str| -> (o: Option<&'static str>)
+            ensures match o { Some(v) => xml_entity(e.spec_bytes()) == Some(v.spec_bytes()), None => xml_entity(e.spec_bytes()) is None }
+            { resolve_predefined_entity(e) };
+      let r = unescape_with(raw, f);
+      proof {
+          assert(implements_xml(f));
+          if r is Ok { lemma_unesc_functional(raw.spec_bytes(), 0, f, cow_str_bytes(r->Ok_0)); }
+          else { lemma_unesc_functional(raw.spec_bytes(), 0, f, Seq::<u8>::empty()); }
+      }
+      r }
+}
+//@end
 }
